@@ -57,6 +57,11 @@ func runSolver(ctx context.Context, sd solverDef, file string, timeoutS int) (st
 		if l == "" || strings.HasPrefix(l, "WARNING") || strings.HasPrefix(l, "(warning") {
 			continue
 		}
+		if strings.HasPrefix(l, "(error") {
+			// an error before the answer means part of the query was rejected: the answer is meaningless
+			first = "error"
+			break
+		}
 		first = l
 		break
 	}
@@ -136,6 +141,17 @@ func solveObligation(o *Obligation, dir string, timeoutS int, all bool) *SolveRe
 			if a.status == "error" && res.Raw == "" {
 				res.Raw = a.sd.name + ": " + firstLines(a.raw, 3)
 			}
+		}
+	}
+	if definitive == nil {
+		nerr := 0
+		for _, st := range res.Others {
+			if st == "error" {
+				nerr++
+			}
+		}
+		if nerr == len(res.Others) && nerr > 0 {
+			res.Status = "error" // every solver rejected the query: an engine problem, not a verdict
 		}
 	}
 	if definitive != nil {
